@@ -7,6 +7,7 @@ import (
 	"go/token"
 	"go/types"
 	"math"
+	"os"
 	"strings"
 )
 
@@ -660,12 +661,16 @@ func (c *Ctx) ruleDispatcherJoined(rule string) {
 	c.Rep.check(n > 0, rule, "-", "no re-spawning path found", "", "at least one lifecycle method re-spawns the dispatcher", "no lifecycle method was found that re-spawns the dispatcher: the rule has nothing to check (role resolution changed?)")
 }
 
-// narrowing: converting from to to can lose high-order bits (sizes for a 64-bit platform: int/uint are 64 bits).
+// narrowing: converting from to to can lose high-order bits (int/uint sized for the target being analysed).
 func narrowing(from, to types.Type) bool {
 	fb, ok1 := from.Underlying().(*types.Basic)
 	tb, ok2 := to.Underlying().(*types.Basic)
 	if !ok1 || !ok2 {
 		return false
+	}
+	word := 64
+	if a := os.Getenv("GOARCH"); a == "386" || a == "arm" || a == "mips" || a == "mipsle" {
+		word = 32
 	}
 	bits := func(b *types.Basic) int {
 		switch b.Kind() {
@@ -675,8 +680,10 @@ func narrowing(from, to types.Type) bool {
 			return 16
 		case types.Int32, types.Uint32:
 			return 32
-		case types.Int, types.Uint, types.Int64, types.Uint64, types.Uintptr:
+		case types.Int64, types.Uint64:
 			return 64
+		case types.Int, types.Uint, types.Uintptr:
+			return word
 		}
 		return 0
 	}
